@@ -10,6 +10,7 @@ import (
 	"strconv"
 	"strings"
 	"sync"
+	"time"
 
 	appsv1 "k8s.io/api/apps/v1"
 	corev1 "k8s.io/api/core/v1"
@@ -383,7 +384,67 @@ func makePod(ns, name string, uid int, kind, app, pool string, policy int, range
 	if len(ann) > 0 {
 		pod.Annotations = ann
 	}
+	applyPodDefaults(pod, uid, kind)
 	return pod
+}
+
+// applyPodDefaults completes a generated pod the way the apiserver does (defaulting + admission): no real pod object
+// has an empty restartPolicy, dnsPolicy, schedulerName, … - code that (wrongly) lets one of these fields influence the
+// float-ip decisions must see them set.  Workload pods get restartPolicy Always (the only value their controllers
+// allow), bare pods a mix of Always / OnFailure / Never - a deterministic function of the uid, so that a history and its
+// replay see the same objects.
+func applyPodDefaults(pod *corev1.Pod, uid int, kind string) {
+	sp := &pod.Spec
+	sp.RestartPolicy = corev1.RestartPolicyAlways
+	if kind == "bare" {
+		sp.RestartPolicy = []corev1.RestartPolicy{corev1.RestartPolicyAlways, corev1.RestartPolicyOnFailure, corev1.RestartPolicyNever}[uid%3]
+	}
+	sp.DNSPolicy = corev1.DNSClusterFirst
+	grace := int64(30)
+	sp.TerminationGracePeriodSeconds = &grace
+	sp.SchedulerName = corev1.DefaultSchedulerName
+	prio := int32(0)
+	sp.Priority = &prio
+	pre := corev1.PreemptLowerPriority
+	sp.PreemptionPolicy = &pre
+	sp.ServiceAccountName, sp.DeprecatedServiceAccount = "default", "default"
+	sp.SecurityContext = &corev1.PodSecurityContext{}
+	links := true
+	sp.EnableServiceLinks = &links
+	secs := int64(300)
+	sp.Tolerations = []corev1.Toleration{
+		{Key: "node.kubernetes.io/not-ready", Operator: corev1.TolerationOpExists, Effect: corev1.TaintEffectNoExecute, TolerationSeconds: &secs},
+		{Key: "node.kubernetes.io/unreachable", Operator: corev1.TolerationOpExists, Effect: corev1.TaintEffectNoExecute, TolerationSeconds: &secs},
+	}
+	for i := range sp.Containers {
+		c := &sp.Containers[i]
+		c.Image = "registry.example/app:1"
+		c.ImagePullPolicy = corev1.PullIfNotPresent
+		c.TerminationMessagePath = corev1.TerminationMessagePathDefault
+		c.TerminationMessagePolicy = corev1.TerminationMessageReadFile
+	}
+	pod.Labels = map[string]string{"app": pod.Name}
+	pod.CreationTimestamp = metav1.NewTime(time.Unix(1700000000+int64(uid), 0))
+	pod.Status.Phase = corev1.PodPending
+	pod.Status.QOSClass = corev1.PodQOSBestEffort
+	pod.Status.Conditions = []corev1.PodCondition{{Type: corev1.PodScheduled, Status: corev1.ConditionFalse, Reason: corev1.PodReasonUnschedulable}}
+}
+
+// podConditions: the status conditions a kubelet reports for the phase
+func podConditions(phase corev1.PodPhase) []corev1.PodCondition {
+	st := func(b bool) corev1.ConditionStatus {
+		if b {
+			return corev1.ConditionTrue
+		}
+		return corev1.ConditionFalse
+	}
+	running := phase == corev1.PodRunning
+	return []corev1.PodCondition{
+		{Type: corev1.PodInitialized, Status: corev1.ConditionTrue},
+		{Type: corev1.PodReady, Status: st(running)},
+		{Type: corev1.ContainersReady, Status: st(running)},
+		{Type: corev1.PodScheduled, Status: corev1.ConditionTrue},
+	}
 }
 
 // syncListers copies API truth into the listers.
